@@ -51,6 +51,7 @@ type fakeStream struct {
 	sendFail          bool
 	closed            bool
 	sends             int
+	sendGate          chan struct{} // non-nil: Send blocks until it is closed (a stalled connection)
 }
 
 func (a *fakeADS) StreamAggregatedResources(ctx context.Context, callOptions ...callopt.Option) (manager.ADSStream, error) {
@@ -68,6 +69,12 @@ func (a *fakeADS) StreamAggregatedResources(ctx context.Context, callOptions ...
 
 func (s *fakeStream) Send(req *discoveryv3.DiscoveryRequest) error {
 	s.ads.mu.Lock()
+	g := s.sendGate
+	s.ads.mu.Unlock()
+	if g != nil {
+		<-g
+	}
+	s.ads.mu.Lock()
 	defer s.ads.mu.Unlock()
 	if s.sendFail || s.closed {
 		return errors.New("verif: send failed")
@@ -82,6 +89,11 @@ func (s *fakeStream) Recv() (*discoveryv3.DiscoveryResponse, error) {
 	a.mu.Lock()
 	s.recvCalls++
 	for len(s.inbox) == 0 {
+		if s.closed {
+			// a closed stream fails Recv at once (the receiver keeps a dead stream when reconnecting failed)
+			a.mu.Unlock()
+			return nil, errors.New("verif: recv on a closed stream")
+		}
 		s.waiting = true
 		a.mu.Unlock()
 		time.Sleep(50 * time.Microsecond)
